@@ -176,6 +176,21 @@ def run(tier, seed):
                                 "limits": {"depth": 32, "max_seq": 4, "max_alloc": 1 << 16}})
                 sk_si.append(2)
                 sk_paths.append(path)
+    # a block that announces an astronomic (positive) count of zero-byte elements, read by an ignoring target: without a byte size
+    # to jump over, every element has to be visited, so max_seq_size must stop it (otherwise 12 bytes ask for 2^40 iterations)
+    an = scopes.flatten(scopes.arr(scopes.prim("null")))["nodes"]
+    aan = scopes.flatten(scopes.rec("W", [("a", scopes.arr(scopes.arr(scopes.prim("null")))), ("z", scopes.prim("long"))]))["nodes"]
+    sk_scope.append({"sid": "skip_arrnull", "nodes": an})
+    sk_scope.append({"sid": "skip_arrarrnull", "nodes": aan})
+    for G_, si_, floods_ in ((an, len(sk_scope) - 1, [pyavro.enc_long(1 << 40) + [0], pyavro.enc_long(300) + [0], pyavro.enc_long(99) + pyavro.enc_long(99) + [0]]),
+                             (aan, len(sk_scope), [pyavro.enc_long(1) + pyavro.enc_long(1 << 40) + [0, 0, 2], pyavro.enc_long(150) + [0] * 150 + [0, 2]])):
+        for fl in floods_:
+            for path in ([], [0] if G_ is aan else []):
+                for rd in ({"kind": "slice"}, {"kind": "chunks", "sched": [5]}):
+                    sk_cmds.append({"op": "de", "id": len(sk_cmds), "schema": {"nodes": G_}, "bytes": fl, "reader": rd, "ignore": [path],
+                                    "limits": {"depth": 32, "max_seq": 100, "max_alloc": 1 << 16}})
+                    sk_si.append(si_)
+                    sk_paths.append(path)
     sk_obs = common.run_harness(sk_cmds, per_cmd_timeout=30)
     sk_events = []
     for si, c, o, pth in zip(sk_si, sk_cmds, sk_obs, sk_paths):
